@@ -10,6 +10,11 @@ from ..engine import FamilySpec
 from .common import *
 
 
+# the families that establish helper contracts run in every check whose symbolic-arity families may
+# use them (their obligations count only for the properties they are tagged with)
+HELPER_PROPS = ["C01", "C02", "C03", "C04", "C05", "C06", "C07", "C08", "C09", "C10", "C14", "C17"]
+
+
 def make_self_g(I, cls, name="self", raw=False):
     k = z3.Int("k")
     I.path.assume(k >= 0)
@@ -171,7 +176,7 @@ def fam_g_init(cls):
             emit("variable-names=Vars", ["C14"], vn.term == spec.vars_of(I, slf) if isinstance(vn, SSet) else z3.BoolVal(False))
             emit("memo-initialised", ["C09"], z3.BoolVal(True))
         return H.run_family(prog, f"{cls.name}[any arity].__init__", setup, post)
-    return FamilySpec(f"{cls.name}[any arity].__init__", ["C16", "C14", "C15", "C09"], run, functions=[f"{cls.name}.__init__"])
+    return FamilySpec(f"{cls.name}[any arity].__init__", sorted(set(["C16", "C14", "C15", "C09"] + HELPER_PROPS)), run, functions=[f"{cls.name}.__init__"])
 
 
 def fam_g_numeric_partial(cls):
@@ -264,7 +269,7 @@ def fam_g_helper_multiply():
             if is_num(r):
                 emit("value=product-of-the-arguments", ["C01", "C03", "C04"], real_term(r) == gmode.bigprod(I, lambda t: g["A"](t), g["k"]))
         return H.run_family(prog, nm, setup, post)
-    return FamilySpec(nm, ["C01", "C03", "C04", "C06", "C17"], run, functions=["math_functions.multiply"])
+    return FamilySpec(nm, HELPER_PROPS, run, functions=["math_functions.multiply"])
 
 
 def fam_g_helper_list_without():
@@ -308,7 +313,7 @@ def fam_g_helper_list_without():
             emit("elements", ["C03", "C04", "C05"], z3.Implies(z3.And(u >= 0, u < r.length),
                                                               real_term(got) == want if is_num(got) else z3.BoolVal(False)))
         return H.run_family(prog, nm, setup, post)
-    return FamilySpec(nm, ["C03", "C04", "C05", "C06", "C17"], run, functions=["utilities.list_without_entry_at"])
+    return FamilySpec(nm, HELPER_PROPS, run, functions=["utilities.list_without_entry_at"])
 
 
 def fam_g_helper_list_with_updated():
@@ -350,7 +355,7 @@ def fam_g_helper_list_with_updated():
             want = z3.If(z3.And(z3.Not(oor), u == j), new, A(u))
             emit("elements", ["C08"], z3.Implies(z3.And(u >= 0, u < r.length), real_term(got) == want if is_num(got) else z3.BoolVal(False)))
         return H.run_family(prog, nm, setup, post)
-    return FamilySpec(nm, ["C08", "C05", "C06", "C07", "C09", "C17"], run, functions=["utilities.list_with_updated_entry_at"])
+    return FamilySpec(nm, HELPER_PROPS, run, functions=["utilities.list_with_updated_entry_at"])
 
 
 def fam_g_helper_first_match():
@@ -394,7 +399,7 @@ def fam_g_helper_first_match():
             emit("index-in-range-and-matches", ["C08"], z3.And(i >= 0, i < k, P(i), r[1].idx == i))
             emit("first-match", ["C08"], z3.Implies(z3.And(s_ >= 0, s_ < i), z3.Not(P(s_))))
         return H.run_family(prog, nm, setup, post)
-    return FamilySpec(nm, ["C08", "C05", "C06", "C07", "C09", "C17"], run, functions=["utilities.first_match_by_predicate"])
+    return FamilySpec(nm, HELPER_PROPS, run, functions=["utilities.first_match_by_predicate"])
 
 
 def fam_g_helper_partition():
@@ -437,7 +442,7 @@ def fam_g_helper_partition():
             emit("hits-elements", ["C08"], z3.Implies(z3.And(u >= 0, u < hits.length), hits.elem(u).idx == g["sigma"](u)))
             emit("misses-elements", ["C08"], z3.Implies(z3.And(u >= 0, u < misses.length), misses.elem(u).idx == g["tau"](u)))
         return H.run_family(prog, nm, setup, post)
-    return FamilySpec(nm, ["C08", "C05", "C06", "C07", "C09", "C17"], run, functions=["utilities.partition_by_predicate"])
+    return FamilySpec(nm, HELPER_PROPS, run, functions=["utilities.partition_by_predicate"])
 
 
 _specs0 = specs
